@@ -39,6 +39,8 @@ def match_slot(exp, slot):
     if k == "date":
         return slot["day"] == exp["day"]
     if k == "time":
+        if "pr" in exp and "pr" in slot and slot["pr"] != exp["pr"]:
+            return False
         return slot["sod"] == exp["sod"] and slot["off"] == exp["off"]
     if k == "datetime":
         return slot["d"] == exp["d"] and slot["s"] == exp["s"] and slot["off"] == exp["off"]
